@@ -10,6 +10,7 @@ import ast
 
 from ..cfg import CFG, EXIT, RAISE
 from ..model import calls_in, call_name, kwarg, real_body, u, walk_no_nested
+from ..tmpl import tall
 
 BASE = "hugr.hugr.base"
 STATE = {"_nodes", "_free_nodes", "_links"}
@@ -94,72 +95,115 @@ def r1_who_may_write(ctx) -> None:
     ctx.ok("C04.R1", "hugr.hugr.base.Hugr owns _nodes/_free_nodes/_links", "all writers are methods of Hugr")
 
 
+HQ = f"{BASE}.Hugr"
+
+
+def _prim(p, name):
+    """primary evaluations of a call on a path: effect statements whose own expression is the call (a value bound to a
+    local recurs textually wherever the local is read)"""
+    out = []
+    for i, e in enumerate(p.effects):
+        v = e.value if isinstance(e, (ast.Expr, ast.Assign)) else None
+        if isinstance(v, ast.Call) and u(v.func).endswith(name):
+            out.append((i, v, e))
+    return out
+
+
 def r2_pairing(ctx, hugr, file) -> None:
+    """stated over path summaries (hv/paths.py) of delete_node and _add_node"""
+    from ..tmpl import T, tmatch
     # ---- delete_node: slot cleared <=> index pushed on the free list <=> removed from parent's children
-    dn = hugr.methods.get("delete_node")
-    an = hugr.methods.get("_add_node")
-    if dn is None or an is None:
-        ctx.broken("anchor vanished: Hugr.delete_node / _add_node")
-    g = CFG(real_body(dn))
-    clear = g.where(lambda s: isinstance(s, ast.Assign) and any("self._nodes[" in u(t) for t in s.targets) and ("None" in u(s.value)))
-    push = g.where(lambda s: isinstance(s, ast.Expr) and isinstance(s.value, ast.Call) and u(s.value.func) == "self._free_nodes.append")
-    ok = len(clear) == 1 and len(push) == 1
-    if ok:
-        # same paths: neither is reachable to the exit while avoiding the other
-        ok = EXIT not in g.reachable(0, avoid={clear[0]}) and EXIT not in g.reachable(0, avoid={push[0]})
+    dn, _, _ = ctx.locate(f"{HQ}.delete_node")
+    an, _, _ = ctx.locate(f"{HQ}._add_node")
+    ps = [p for p in ctx.paths(f"{HQ}.delete_node") if p.kind != "raise"]
+    ok = bool(ps)
+    same = bool(ps)
+    par_ok = bool(ps)
+    ret_ok = bool(ps)
+    seen_parent = False
+    for p in ps:
+        clear = p.find_effect("self._nodes[E_i] = None")
+        push = _prim(p, "self._free_nodes.append")
+        ok = ok and len(clear) == 1 and len(push) == 1
+        if len(clear) == 1 and len(push) == 1:
+            idx = clear[0][2]["E_i"]
+            pushed = u(push[0][1].args[0]) if push[0][1].args else ""
+            # the pushed handle is the node whose slot is cleared (possibly with its metadata stripped)
+            node_txt = idx[:-4] if idx.endswith(".idx") else None
+            same = same and node_txt is not None and (pushed == node_txt or pushed.startswith(f"replace({node_txt},"))
+            # the removed data is what the slot held before it was cleared
+            ret_ok = ret_ok and p.kind == "return" and p.value_text() in (f"old_(self._nodes[{idx}])", f"old_(self[{node_txt}])")
+            has_parent = [k for t, k in p.tests if u(t) in (f"self[{node_txt}].parent", f"self[{node_txt}].parent is not None")]
+            rem = p.find_effect(f"self[self[{node_txt}].parent].children.remove({node_txt})")
+            if has_parent and has_parent[0]:
+                seen_parent = True
+                par_ok = par_ok and len(rem) == 1 and rem[0][0] < clear[0][0]
+            else:
+                par_ok = par_ok and bool(has_parent) and not rem
     ctx.check(ok, "C04.R2", "Hugr.delete_node: slot cleared and index freed together", file, dn.lineno,
               "on every path delete_node must set the node's slot to None and push its index on the free list (both or neither)", dn)
     if ok:
-        cs = g.stmt[clear[0]]
-        ps = g.stmt[push[0]]
-        same = "node.idx" in u(cs) and u(ps.value.args[0]) in ("node",)
-        ctx.check(same, "C04.R2", "Hugr.delete_node: same index", file, cs.lineno, "the freed index must be the index of the cleared slot", cs, found=f"{u(cs)} / {u(ps)}")
-    rem = g.where(lambda s: "children.remove(" in u(s))
-    par_ok = False
-    if rem:
-        ifs = [n for n in ast.walk(dn) if isinstance(n, ast.If) and g.stmt[rem[0]] in n.body]
-        par_ok = len(rem) == 1 and bool(ifs) and u(ifs[0].test) in ("parent", "parent is not None") and "self[parent].children.remove(node)" in u(g.stmt[rem[0]])
-    ctx.check(par_ok, "C04.R2", "Hugr.delete_node: detached from parent", file, dn.lineno,
+        ctx.check(same, "C04.R2", "Hugr.delete_node: same index", file, dn.lineno, "the freed index must be the index of the cleared slot", dn)
+    ctx.check(par_ok and seen_parent, "C04.R2", "Hugr.delete_node: detached from parent", file, dn.lineno,
               "a deleted node must be removed from its parent's child list whenever it has a parent", dn)
-    rets = [r for r in ast.walk(dn) if isinstance(r, ast.Return) and r.value is not None]
-    ctx.check(all(u(r.value) in ("weight",) for r in rets) and rets, "C04.R2", "Hugr.delete_node: returns the removed data", file, dn.lineno, "", dn)
+    ctx.check(ret_ok, "C04.R2", "Hugr.delete_node: returns the removed data", file, dn.lineno, "", dn,
+              found="; ".join(p.describe() for p in ps)[:200])
     # ---- _add_node
-    g = CFG(real_body(an))
-    pops = g.where(lambda s: "_free_nodes.pop()" in u(s))
-    ok = len(pops) == 1
-    if ok:
-        after = g.reachable(pops[0])
-        store = [n for n in after if isinstance(g.stmt.get(n), ast.Assign) and u(g.stmt[n].targets[0]) == "self._nodes[node.idx]" and u(g.stmt[n].value) == "node_data"]
-        ok = len(store) == 1 and EXIT not in g.reachable(pops[0], avoid=set(store))
-        # the pop is taken only when the free list is non-empty
-        tests = [n for n in g.dominators()[pops[0]] if g.kind.get(n) == "test"]
-        ok = ok and any(u(g.stmt[t]) in ("self._free_nodes", "len(self._free_nodes) > 0", "self._free_nodes != []") and g.label.get((t, _succ_towards(g, t, pops[0]))) == "T" for t in tests)
-    ctx.check(ok, "C04.R2", "Hugr._add_node: reused index is filled", file, an.lineno,
+    ps = [p for p in ctx.paths(f"{HQ}._add_node") if p.kind != "raise"]
+    params = [a.arg for a in an.args.args]
+    op_p, par_p = params[1], params[2]
+    ok_reuse = ok_fresh = ok_par = ok_data = ok_req = bool(ps)
+    seen = {"reuse": False, "fresh": False, "par": False}
+    for p in ps:
+        nonempty = [k for t, k in p.tests if u(t) in ("self._free_nodes", "len(self._free_nodes) > 0", "0 < len(self._free_nodes)")]
+        pops = _prim(p, "self._free_nodes.pop")
+        apps = _prim(p, "self._nodes.append")
+        stores = [e for e in p.effects if isinstance(e, ast.Assign) and isinstance(e.targets[0], ast.Subscript) and u(e.targets[0].value) == "self._nodes"]
+        data = None
+        if nonempty and nonempty[0]:
+            seen["reuse"] = True
+            good = len(pops) == 1 and not apps and len(stores) == 1 and u(stores[0].targets[0].slice) == "self._free_nodes.pop().idx"
+            ok_reuse = ok_reuse and good
+            data = stores[0].value if stores else None
+        else:
+            seen["fresh"] = True
+            good = bool(nonempty) and not pops and len(apps) == 1 and not stores
+            # the handle is the table length before the append
+            from ..tmpl import thas
+            good = good and p.kind == "return" and p.value is not None and (thas(p.value, "old_(Node(len(self._nodes), ANY_))") or thas(p.value, "old_(Node(len(self._nodes)))"))
+            ok_fresh = ok_fresh and good
+            data = apps[0][1].args[0] if apps and apps[0][1].args else None
+        e = tmatch(data, T("NodeData(E_op, E_parent, metadata=E_meta)")) if data is not None else None
+        ok_data = ok_data and e is not None and e["E_op"] == op_p and (e["E_parent"] in (par_p, f"{par_p}.to_node()", "None")) and "metadata" in e["E_meta"]
+        has_par = [k for t, k in p.tests if u(t) in (par_p, f"{par_p} is not None")]
+        ch = [x for x in p.effects if isinstance(x, ast.Expr) and isinstance(x.value, ast.Call) and u(x.value.func).endswith(".children.append")]
+        if has_par and has_par[0]:
+            # (a second truthiness test on the converted handle may skip the registration: Node(0) is falsy -- reported by C04.L1)
+            if ch:
+                seen["par"] = True
+                ok_par = ok_par and len(ch) == 1 and u(ch[0].value.func) in (f"self[{par_p}].children.append", f"self[{par_p}.to_node()].children.append") \
+                    and p.kind == "return" and u(ch[0].value.args[0]) == p.value_text()
+        else:
+            ok_par = ok_par and not ch
+        req = [x for x in p.effects if isinstance(x, ast.Expr) and isinstance(x.value, ast.Call) and u(x.value.func) in ("self._update_node_outs", "self._update_port_count")]
+        ok_req = ok_req and len(req) == 1 and "num_outs" in u(req[0])
+    ctx.check(ok_reuse and seen["reuse"], "C04.R2", "Hugr._add_node: reused index is filled", file, an.lineno,
               "an index popped from the free list (only when it is non-empty) must receive the new node data on every path", an)
-    fresh = g.where(lambda s: isinstance(s, ast.Assign) and isinstance(s.value, ast.Call) and u(s.value.func) == "Node" and s.value.args
-                    and u(s.value.args[0]) == "len(self._nodes)")
-    app = g.where(lambda s: u(s) == "self._nodes.append(node_data)")
-    ok = len(fresh) == 1 and len(app) == 1 and app[0] in g.reachable(fresh[0]) and pops and app[0] not in g.reachable(pops[0]) and fresh[0] not in g.reachable(pops[0])
-    ctx.check(bool(ok), "C04.R2", "Hugr._add_node: fresh index = table length", file, an.lineno,
+    ctx.check(ok_fresh and seen["fresh"], "C04.R2", "Hugr._add_node: fresh index = table length", file, an.lineno,
               "without a free index the new node gets index len(_nodes) and its data is appended (never both reuse and append)", an)
-    ch = [s for s in ast.walk(an) if isinstance(s, ast.Expr) and "children.append(node)" in u(s)]
-    ok = len(ch) == 1
-    if ok:
-        ifs = [n for n in ast.walk(an) if isinstance(n, ast.If) and ch[0] in n.body]
-        ok = bool(ifs) and u(ifs[0].test) in ("parent", "parent is not None") and u(ch[0].value.func.value) == "self[parent].children"
-    ctx.check(ok, "C04.R2", "Hugr._add_node: registered with parent", file, an.lineno, "a node with a parent must be appended to that parent's child list", an)
-    nd = [x for x in calls_in(an) if u(x.func) == "NodeData"]
-    ok = len(nd) == 1 and [u(a) for a in nd[0].args[:2]] == ["op", "parent"] and kwarg(nd[0], "metadata") is not None
-    ctx.check(ok, "C04.R2", "Hugr._add_node: node data", file, an.lineno, "the stored node data must hold the given op, parent and metadata", an)
-    req = [x for x in calls_in(an) if call_name(x) in ("_update_node_outs", "_update_port_count")]
-    ctx.check(len(req) == 1 and "num_outs" in u(req[0]), "C04.R2", "Hugr._add_node: requested count recorded", file, an.lineno,
+    ctx.check(ok_par and seen["par"], "C04.R2", "Hugr._add_node: registered with parent", file, an.lineno, "a node with a parent must be appended to that parent's child list", an)
+    ctx.check(ok_data, "C04.R2", "Hugr._add_node: node data", file, an.lineno, "the stored node data must hold the given op, parent and metadata", an)
+    ctx.check(ok_req, "C04.R2", "Hugr._add_node: requested count recorded", file, an.lineno,
               "the output count requested at creation must be recorded for the node", an)
-    it = hugr.methods.get("__iter__")
-    src = u(it) if it else ""
-    ctx.check("if data is not None" in src and "enumerate(self._nodes)" in src, "C04.R2", "Hugr.__iter__ skips free slots", file, it.lineno if it else 1, "", it)
-    gi = hugr.methods.get("__getitem__")
-    src = u(gi) if gi else ""
-    ctx.check("raise KeyError" in src and "if n is None" in src, "C04.R2", "Hugr.__getitem__ rejects free slots", file, gi.lineno if gi else 1,
+    it, _, _ = ctx.locate(f"{HQ}.__iter__")
+    e = tall(ctx.cfn(f"{HQ}.__iter__").body, ["return (Node(c0, E_m) for c0, c1 in enumerate(self._nodes) if c1 is not None)"])
+    ctx.check(e is not None, "C04.R2", "Hugr.__iter__ skips free slots", file, it.lineno, "", it)
+    gi, _, _ = ctx.locate(f"{HQ}.__getitem__")
+    ps = ctx.paths(f"{HQ}.__getitem__")
+    rets = [p for p in ps if p.kind == "return"]
+    ok = bool(rets) and all(p.has_test("self._nodes[E_i] is not None", True) is not None for p in rets) and \
+        all(p.kind == "raise" and u(p.value).startswith("KeyError") for p in ps if p.kind != "return")
+    ctx.check(ok, "C04.R2", "Hugr.__getitem__ rejects free slots", file, gi.lineno,
               "looking up a deleted node must raise KeyError", gi)
 
 
@@ -213,16 +257,19 @@ def is_gap_closing(fn) -> bool:
 
 
 def r3_dense_suboffsets(ctx, hugr, file) -> None:
+    """on canonical method bodies (aliases of self._links are replaced by the attribute, unknown helpers are inlined)"""
+    from ..tmpl import T, tall, thas
+    cm = {name: ctx.cfn(f"{HQ}.{name}") for name in hugr.methods}
     # contradiction: readers and allocator assume a gap-free prefix of sub-offsets
-    lp = hugr.methods.get("_linked_ports")
-    us = hugr.methods.get("_unused_sub_offset")
+    lp = cm.get("_linked_ports")
+    us = cm.get("_unused_sub_offset")
     if lp is None or us is None:
         ctx.broken("anchor vanished: Hugr._linked_ports / _unused_sub_offset")
     assumes = all(any(isinstance(n, ast.While) and " in " in u(n.test) for n in ast.walk(f)) and "next_sub_offset" in u(f) for f in (lp, us))
     ctx.stats["C04.R3 prefix assumption present"] = assumes
-    helpers = [m for name, m in hugr.methods.items() if _raw_link_deletes(m) and is_gap_closing(m)]
+    helpers = [m for name, m in cm.items() if _raw_link_deletes(m) and is_gap_closing(m)]
     n = 0
-    for name, m in hugr.methods.items():
+    for name, m in cm.items():
         raw = _raw_link_deletes(m)
         if not raw:
             continue
@@ -238,44 +285,64 @@ def r3_dense_suboffsets(ctx, hugr, file) -> None:
         ctx.fail("C04.R3", "Hugr: link removal exists", file, hugr.node.lineno, "no method removes entries from the link map", hugr.node)
     if helpers:
         h = helpers[0]
-        src = u(h)
         # the helper looks the target sub-port up before deleting, and re-inserts at the vacated sub-offset
-        ok = "self._links.fwd[" in src and "insert_left" in src
+        ok = thas(h, "self._links.fwd[ANY_]") and any(call_name(c) == "insert_left" for c in calls_in(h))
         ctx.check(ok, "C04.R3", f"Hugr.{h.name}: re-keys later links", file, h.lineno, "", h)
-        dl = hugr.methods.get("delete_link")
+        dl = cm.get("delete_link")
         ok = dl is not None and any(call_name(c) == h.name for c in calls_in(dl))
         ctx.check(ok, "C04.R3", "Hugr.delete_link uses the removal helper", file, dl.lineno if dl else 1, "", dl)
         if dl is not None:
             # delete_link removes exactly the addressed link: the sub-offset found by position in linked_ports(src) == dst
-            src_ = u(dl)
-            ok = "enumerate(self.linked_ports(src))" in src_ and "inp == dst" in src_.replace("tgt == dst", "inp == dst") and "_SubPort(src, sub_offset)" in src_
+            a = tall(dl.body, [f"self.{h.name}(_SubPort(L_src, next((c0 for c0, c1 in enumerate(self.linked_ports(L_src)) if c1 == L_dst))))"]) or \
+                tall(dl.body, ["L_so = next((c0 for c0, c1 in enumerate(self.linked_ports(L_src)) if c1 == L_dst))", f"self.{h.name}(_SubPort(L_src, L_so))"])
+            b = None
+            for lp_ in [x for x in ast.walk(dl) if isinstance(x, ast.For)]:
+                e = tmatch_for(lp_, "enumerate(self.linked_ports(L_src))")
+                if e is not None and isinstance(lp_.target, ast.Tuple) and len(lp_.target.elts) == 2:
+                    i_, p_ = u(lp_.target.elts[0]), u(lp_.target.elts[1])
+                    from ..paths import summaries
+                    hits = [q for q in summaries(lp_.body) if q.find_effect(f"self.{h.name}(_SubPort({e['L_src']}, {i_}))")]
+                    if hits and all(any(u(t) in (f"{p_} == {d}", f"{d} == {p_}") and k for t, k in q.tests for d in [a_.arg for a_ in dl.args.args[1:]]) and q.kind in ("return", "break") for q in hits):
+                        b = e
+            ok = (a is not None and [a["L_src"], a["L_dst"]] == [x.arg for x in dl.args.args[1:3]]) or b is not None
             ctx.check(ok, "C04.R3", "Hugr.delete_link addresses exactly one link", file, dl.lineno,
                       "delete_link(src, dst) must remove the link at the sub-offset where dst appears among linked_ports(src), and do nothing if absent", dl)
 
 
+def tmatch_for(loop, iter_tmpl):
+    from ..tmpl import T, tmatch
+    return tmatch(loop.iter, T(iter_tmpl))
+
+
 def r4_deletion_complete(ctx, hugr, file) -> None:
-    dn = hugr.methods["delete_node"]
+    from ..tmpl import T, tmatch
+    dn_o, _, _ = ctx.locate(f"{HQ}.delete_node")
+    dn = ctx.cfn(f"{HQ}.delete_node")
     for direction, mk, d in (("incoming", "inp", "bck"), ("outgoing", "out", "fwd")):
         ok = False
         why = ""
         for lp in [n for n in ast.walk(dn) if isinstance(n, ast.For)]:
             it = u(lp.iter)
-            covers_order = it.startswith("range(-1,")
-            right_count = f"num_{'in' if direction == 'incoming' else 'out'}_ports" in it or f"Direction.{direction.upper()}" in it
-            inner = [w for w in ast.walk(lp) if isinstance(w, ast.While)]
-            drains = any(f"in self._links.{d}" in u(w.test) and f"node.{mk}(" in u(w.test) for w in inner)
-            if covers_order and right_count and drains:
-                ok = True
+            cnt = f"num_{'in' if direction == 'incoming' else 'out'}_ports"
+            e = tmatch(lp.iter, T(f"range(-1, self.{cnt}(L_n))")) or tmatch(lp.iter, T(f"range(-1, self.num_ports(L_n, Direction.{direction.upper()}))"))
+            if e is not None and isinstance(lp.target, ast.Name):
+                o = lp.target.id
+                for w in [x for x in ast.walk(lp) if isinstance(x, ast.While)]:
+                    if tmatch(w.test, T(f"(L_s := _SubPort({e['L_n']}.{mk}({o}))) in self._links.{d}")) is not None or \
+                            tmatch(w.test, T(f"_SubPort({e['L_n']}.{mk}({o})) in self._links.{d}")) is not None:
+                        # the loop body removes a link on every iteration (otherwise it would not terminate / not drain)
+                        if any(call_name(c) in ("_remove_sub_link", "delete_link") or (call_name(c) in ("delete_left", "delete_right") and "_links" in u(c.func)) for c in calls_in(w)):
+                            ok = True
             # iterator-style removal: must not discard the list of linked ports and must reach the order port separately
-            if f"{direction}_links(node)" in it:
+            if f"{direction}_links(" in it:
                 tg = lp.target
-                discards = isinstance(tg, ast.Tuple) and any(isinstance(e, ast.Name) and e.id == "_" for e in tg.elts)
+                discards = isinstance(tg, ast.Tuple) and any(isinstance(x, ast.Name) and x.id == "_" for x in tg.elts)
                 why = f"iterates {it}" + (" discarding the list of linked ports (only sub-offset 0 is removed)" if discards else "") + \
                       ", which covers ports 0..n-1 but not the order port -1 and raises KeyError on an unconnected port"
-        ctx.check(ok, "C04.R4", f"Hugr.delete_node: all {direction} links removed", file, dn.lineno,
+        ctx.check(ok, "C04.R4", f"Hugr.delete_node: all {direction} links removed", file, dn_o.lineno,
                   f"delete_node must remove every link on every {direction} port of the node, including the order port (-1) and every "
                   f"sub-offset of a multiply-linked port; {why or 'no draining loop over range(-1, num_ports) found'}: surviving links dangle "
-                  "from a freed index", dn, detail=f"range(-1, n) x drain while sub-port in _links.{d}")
+                  "from a freed index", dn_o, detail=f"range(-1, n) x drain while sub-port in _links.{d}")
 
 
 def r5_pure_queries(ctx, hugr, file) -> None:
@@ -385,16 +452,21 @@ def r6_r7_tables(ctx, hugr, file) -> None:
     ctx.check(ok, "C04.R7", "Hugr.add_link: new link at the first free sub-offset of both ports", file, al.lineno,
               "add_link must insert (first unused sub-port of src) -> (first unused sub-port of dst); anything else overwrites an existing link or leaves a gap", al)
     order_link_rule(ctx, "C04.R6")
-    # direction tables
+    # direction tables (path summaries: match / isinstance / conditional expressions look the same)
     for name in ("_unused_sub_offset", "linked_ports"):
-        m = hugr.methods.get(name)
+        m, _, _ = ctx.locate(f"{HQ}.{name}")
+        pp = m.args.args[1].arg
         arms = {}
-        for n in ast.walk(m):
-            if isinstance(n, ast.match_case) and isinstance(n.pattern, ast.MatchClass):
-                txt = " ".join(u(s) for s in n.body)
-                arms[u(n.pattern.cls)] = "fwd" if "_links.fwd" in txt else ("bck" if "_links.bck" in txt else "?")
-        ctx.check(arms == {"OutPort": "fwd", "InPort": "bck"}, "C04.R7", f"Hugr.{name}: direction table", file, m.lineno,
-                  f"{name} must consult the forward map for out-ports and the backward map for in-ports", m, expected="OutPort->fwd, InPort->bck", found=str(arms))
+        for p in ctx.paths(f"{HQ}.{name}"):
+            cls_t = [t for t, k in p.tests if k and isinstance(t, ast.Call) and u(t.func) == "isinstance" and u(t.args[0]) == pp]
+            if not cls_t or p.kind == "raise":
+                continue
+            txt = " ".join(p.effect_texts()) + " " + p.value_text()
+            which = {x for x in ("fwd", "bck") if f"self._links.{x}" in txt}
+            arms.setdefault(u(cls_t[-1].args[1]), set()).update(which or {"?"})
+        got = {k: "/".join(sorted(v)) for k, v in arms.items()}
+        ctx.check(got == {"OutPort": "fwd", "InPort": "bck"}, "C04.R7", f"Hugr.{name}: direction table", file, m.lineno,
+                  f"{name} must consult the forward map for out-ports and the backward map for in-ports", m, expected="OutPort->fwd, InPort->bck", found=str(got))
     # generator-style enumerations (yield): structural
     nl = hugr.methods.get("_node_links")
     loops = [n for n in ast.walk(nl) if isinstance(n, ast.For)]
